@@ -39,6 +39,7 @@ Ports(v) == IF v[1] = "tcp" THEN {"open", "closed", "nosack"} ELSE {"closed"}
 All == UNION { UNION {
           { Lab(v, n, p, {}, 1, 1, FALSE) : p \in Ports(v) }
           \cup (IF n >= 2 THEN { Lab(v, n, p, {2}, 1, 1, FALSE) : p \in (({"open"} \cap Ports(v)) \cup (IF v[1] # "tcp" THEN {"closed"} ELSE {})) } ELSE {})
+          \cup (IF n >= 3 THEN { Lab(v, n, CHOOSE p \in Ports(v) : p \in {"open", "closed"}, {2, 3}, 1, 1, FALSE) } ELSE {})
           \cup (IF n >= 2 THEN { Lab(v, n, CHOOSE p \in Ports(v) : p \in {"open", "closed"}, {}, 2, 1, FALSE) } ELSE {})
           \cup { Lab(v, n, CHOOSE p \in Ports(v) : p \in {"open", "closed"}, {}, 1, 3, FALSE) }
           \cup (IF v[2] \in {"", "syn"} THEN { Lab(v, n, CHOOSE p \in Ports(v) : p \in {"open", "closed"}, {}, 1, 1, TRUE) } ELSE {})
